@@ -52,3 +52,39 @@ theorem cdn_key_sources (E D : Bytes → Bytes → Bytes) (hED : ∀ k b, D k (E
     rw [s1, s2, s3, h1, h2, h3]
     exact (load_enc_ok E D hED hE e x ky idx k tid hx hk htid hidx hnd).2
 end Pyctr
+
+/-! ### the cartridge header: which bytes matter -/
+namespace Pyctr
+namespace Cci
+
+/-- the only header bytes `CCIReader.__init__` looks at: magic, image size, media id, the partition table -/
+def relevant (file : Bytes) (start : Nat) : Bytes × Bytes × Bytes × Bytes :=
+  let header := slice file (start + 0x100) 0x100
+  (slice header 0 4, slice header 4 4, slice header 8 8, slice header 0x20 0x40)
+
+theorem filterMap_congr' {α β : Type} (f g : α → Option β) : ∀ (l : List α), (∀ a ∈ l, f a = g a) → l.filterMap f = l.filterMap g
+  | [], _ => rfl
+  | a :: l, h => by
+    simp only [List.filterMap_cons]
+    rw [h a (by simp), filterMap_congr' f g l (fun b hb => h b (by simp [hb]))]
+
+theorem partsOf_table (h h' : Bytes) (ht : slice h 0x20 0x40 = slice h' 0x20 0x40) : partsOf h = partsOf h' := by
+  unfold partsOf
+  apply filterMap_congr'
+  intro i hi
+  have hi8 : i < 8 := by simpa using hi
+  have e1 : ∀ g : Bytes, le g (0x20 + 8 * i) 4 = readLE (slice (slice g 0x20 0x40) (8 * i) 4) := by
+    intro g; unfold le; rw [slice_slice _ _ _ _ _ (by omega)]
+  have e2 : ∀ g : Bytes, le g (0x24 + 8 * i) 4 = readLE (slice (slice g 0x20 0x40) (8 * i + 4) 4) := by
+    intro g; unfold le; rw [slice_slice _ _ _ _ _ (by omega)]; congr 2; omega
+  rw [e1 h, e1 h', e2 h, e2 h', ht]
+
+theorem parse_frame (file file' : Bytes) (start start' : Nat) (h : relevant file start = relevant file' start') :
+    parse file start = parse file' start' := by
+  simp only [relevant, Prod.mk.injEq] at h
+  obtain ⟨h1, h2, h3, h4⟩ := h
+  have hp := partsOf_table _ _ h4
+  dsimp only [parse, Cci.le]
+  rw [h1, h2, h3, hp]
+end Cci
+end Pyctr
